@@ -62,6 +62,8 @@ struct EvalHist {
     winner: Option<Option<Key>>,
     first_bound: Option<Option<usize>>,
     any_setbest: bool,
+    /// fast path's second evaluator: (result in hand before it ran, result after the hand-off)
+    handoff: Option<(Option<Key>, Option<Key>)>,
 }
 
 fn serde_json_string(s: &str) -> String {
@@ -72,6 +74,7 @@ fn serde_json_string(s: &str) -> String {
 pub fn histories(log: &[(std::thread::ThreadId, Event)], st: &mut Stats) -> Vec<(String, String)> {
     let mut evals: BTreeMap<u64, EvalHist> = BTreeMap::new();
     let mut pending_eval: std::collections::HashMap<std::thread::ThreadId, u64> = std::collections::HashMap::new();
+    let mut last_collected: std::collections::HashMap<std::thread::ThreadId, Option<Key>> = std::collections::HashMap::new();
     for (tid, e) in log {
         match e {
             Event::Submit { eval, deflater, .. } => {
@@ -128,12 +131,14 @@ pub fn histories(log: &[(std::thread::ThreadId, Event)], st: &mut Stats) -> Vec<
                 if let Some(ev) = pending_eval.remove(tid) {
                     evals.entry(ev).or_default().winner = Some(*winner);
                 }
+                last_collected.insert(*tid, *winner);
             }
             Event::CollectedFast { winner } => {
                 if let Some(ev) = pending_eval.remove(tid) {
                     let h = evals.entry(ev).or_default();
-                    // `eval_result` is only replaced when this evaluator produced something
-                    h.winner = Some(if h.received > 0 { *winner } else { None });
+                    // the event reports `eval_result` after the hand-off: the result already in hand, or
+                    // this evaluator's winner where that one is better
+                    h.handoff = Some((last_collected.get(tid).copied().flatten(), *winner));
                 }
             }
             Event::Final { key, .. } => {
@@ -149,9 +154,50 @@ pub fn histories(log: &[(std::thread::ThreadId, Event)], st: &mut Stats) -> Vec<
         if h.tokens.is_empty() && h.received == 0 {
             continue;
         }
+        let toks = if h.tokens.is_empty() { "-".to_string() } else { h.tokens.join(";") };
+        if let Some((prev, result)) = h.handoff {
+            // second evaluator of the fast path: the model replays the history and applies the hand-off
+            let req = format!(
+                "eval_handoff - {} {}",
+                toks,
+                prev.map_or("-".to_string(), |k| format!("P:{}:{}:{}:{}", k.0, k.1 as u8, k.2, k.3))
+            );
+            let ans = format!(
+                "ok result={} pub={}",
+                result.map_or("none".to_string(), |k| format!("{}:{}:{}", k.0, k.1 as u8, k.2)),
+                h.received
+            );
+            st.count("histories_with_handoff");
+            // C17 stated directly: nothing completed here, and not the result in hand, beats what goes on
+            if let Some(r) = result {
+                let rk = (r.2, r.3, r.1 as u8, std::cmp::Reverse(r.0));
+                let better = h.finished.iter().filter(|(_, v)| v.3).find(|((n, f), v)| (v.0 + v.1, v.2, *f, std::cmp::Reverse(*n)) < rk);
+                if let Some(((n, f), v)) = better {
+                    st.fail(
+                        "handoff-lost-completed-trial",
+                        format!("result {}:{} of size {} goes on although trial {}:{} completed with {}", r.0, r.1 as u8, r.2, n, f, v.0 + v.1),
+                        serde_json_string(&req),
+                    );
+                }
+                if let Some(p) = prev {
+                    if (p.2, p.3, p.1 as u8) < (r.2, r.3, r.1 as u8) {
+                        st.count("handoff_result_worse_than_previous");
+                        st.fail(
+                            "handoff-lost-previous-result",
+                            format!("result {}:{} of estimated size {} replaces the result {}:{} of size {} already in hand", r.0, r.1 as u8, r.2, p.0, p.1 as u8, p.2),
+                            serde_json_string(&req),
+                        );
+                    } else if (p.0, p.1 as u8, p.2) == (r.0, r.1 as u8, r.2) && h.finished.values().any(|v| v.3) {
+                        st.count("handoff_kept_previous_over_completed_trials");
+                    }
+                }
+            }
+            out.push((req, ans));
+            continue;
+        }
         // an evaluator whose collection was never followed by a winner report returned None
         let w = h.winner.unwrap_or(None);
-        let req = format!("eval_history - {}", if h.tokens.is_empty() { "-".to_string() } else { h.tokens.join(";") });
+        let req = format!("eval_history - {}", toks);
         let ans = format!(
             "ok winner={} pub={}",
             w.map_or("none".to_string(), |k| format!("{}:{}", k.0, k.1 as u8)),
@@ -194,6 +240,53 @@ pub fn histories(log: &[(std::thread::ThreadId, Event)], st: &mut Stats) -> Vec<
         out.push((req, ans));
     }
     out
+}
+
+
+/// C17 across the evaluators of one call: when evaluation runs with the main deflater (the code's own
+/// `final_round` flag), every trial an evaluator completes is a finished final-round encoding; the
+/// candidate handed to the acceptance test must not be larger than any of them.
+pub fn final_round_oracle(log: &[(std::thread::ThreadId, Event)], main: Deflaters, replay: String, st: &mut Stats) {
+    let mut defl: BTreeMap<u64, Deflaters> = BTreeMap::new();
+    let mut completed: Vec<(u64, usize, u8, usize, usize)> = vec![];
+    let mut fin: Option<((usize, oxipng::RowFilter, usize, usize), bool)> = None;
+    for (_, e) in log {
+        match e {
+            Event::Submit { eval, deflater, .. } => { defl.insert(*eval, *deflater); }
+            Event::Finish { eval, nth, filter, idat_len: Some(n), key_size, raw_len, .. } => {
+                completed.push((*eval, *nth, *filter as u8, n + key_size, *raw_len));
+            }
+            Event::Final { key, data_is_compressed, .. } => fin = Some((*key, *data_is_compressed)),
+            _ => {}
+        }
+    }
+    let Some((key, true)) = fin else { return };
+    // only where results are handed from one evaluator to the next (the fast path); in the full-trials
+    // path the reductions evaluator's encodings are estimates used to pick the image, and the final
+    // round is the last evaluator alone (checked per evaluator)
+    if !log.iter().any(|(_, e)| matches!(e, Event::CollectedFast { .. })) {
+        return;
+    }
+    let finals: Vec<_> = completed.iter().filter(|c| defl.get(&c.0) == Some(&main)).collect();
+    if finals.is_empty() {
+        return;
+    }
+    st.count("calls_with_final_round_evaluators");
+    if finals.iter().map(|c| c.0).collect::<std::collections::BTreeSet<_>>().len() >= 2 {
+        st.count("calls_with_two_final_round_evaluators");
+    }
+    if let Some(best) = finals.iter().min_by_key(|c| c.3) {
+        if key.2 > best.3 {
+            st.fail(
+                "emitted-lost-to-completed-trial",
+                format!(
+                    "candidate {}:{} of estimated size {} goes to the acceptance test although trial {}:{} of evaluator {} completed with {} in the final round",
+                    key.0, key.1 as u8, key.2, best.1, best.2, best.0, best.3
+                ),
+                replay,
+            );
+        }
+    }
 }
 
 /// Cases built to make several trials tie on size (every tie-break level decides some case)
@@ -247,6 +340,7 @@ pub fn corr(ctx: &mut Ctx) {
             continue;
         }
         st.add("events", events.len() as u64);
+        final_round_oracle(&events, case.opts.to_oxi().deflate, case.replay_json(), &mut st);
         for (req, ans) in histories(&events, &mut st) {
             st.distinct_case(req.as_bytes());
             if i < 40 && st.samples.len() < 3 && req.len() > 60 {
